@@ -55,6 +55,7 @@ type PathSpec struct {
 	EBGP      bool        `json:"ebgp,omitempty"`
 	Source    uint32      `json:"source,omitempty"`
 	Prepend   *[2]uint32  `json:"prepend,omitempty"` // ASN, times: BGPPath.Prepend is applied after building
+	OTC       uint32      `json:"otc,omitempty"`     // ONLY_TO_CUSTOMER (RFC 9234); 0 = the path carries none
 }
 
 // Sess is what a session negotiated, as far as the sender is concerned.
@@ -172,7 +173,7 @@ func CheckFrame(w []byte) (typ uint8, body []byte, bad string) {
 }
 
 var attrNames = map[uint8]string{1: "origin", 2: "as-path", 3: "next-hop", 4: "med", 5: "local-pref", 6: "atomic-aggregate", 7: "aggregator", 8: "communities",
-	9: "originator-id", 10: "cluster-list", 14: "mp-reach", 15: "mp-unreach", 32: "large-communities"}
+	9: "originator-id", 10: "cluster-list", 14: "mp-reach", 15: "mp-unreach", 32: "large-communities", 35: "only-to-customer"}
 
 // AttrName names an attribute type code.
 func AttrName(t uint8) string {
@@ -231,6 +232,9 @@ func ExpectedLens(p *PathSpec, s Sess) map[uint8][]int {
 	if s.AS4 {
 		m[7] = []int{8} // RFC 6793: AGGREGATOR carries a 4-octet AS number between NEW speakers
 	}
+	if p.OTC != 0 {
+		m[wire.AttrOTC] = []int{4}
+	}
 	for _, u := range p.Unknown {
 		m[u.Type] = []int{len(u.Value) / 2}
 	}
@@ -288,6 +292,48 @@ func LengthCulprit(body []byte, lens map[uint8][]int) (attr string, declared int
 	return "", 0, 0
 }
 
+// DecodeUpdateLenient is wire.DecodeUpdate except that a 6-byte AGGREGATOR on a 4-octet-AS session (a known finding of
+// C17: bio-rd keeps a 2-octet aggregator AS) is widened instead of rejected, so that the rest of the message can
+// still be judged. widened reports whether that happened.
+func DecodeUpdateLenient(body []byte, o wire.Options) (u *wire.Update, widened bool, err error) {
+	u, err = wire.DecodeUpdate(body, o)
+	if err == nil || !o.AS4 || len(body) < 4 {
+		return u, false, err
+	}
+	wl := int(body[0])<<8 | int(body[1])
+	if 4+wl > len(body) {
+		return nil, false, err
+	}
+	al := int(body[2+wl])<<8 | int(body[3+wl])
+	if 4+wl+al > len(body) {
+		return nil, false, err
+	}
+	attrs, e := wire.SplitAttrs(body[4+wl : 4+wl+al])
+	if e != nil {
+		return nil, false, err
+	}
+	for i, a := range attrs {
+		if a.Type == wire.AttrAggregator && len(a.Value) == 6 {
+			attrs[i].Value = append([]byte{0, 0}, a.Value...)
+			widened = true
+		}
+	}
+	if !widened {
+		return nil, false, err
+	}
+	u = &wire.Update{Attrs: attrs}
+	if u.Withdrawn, e = wire.DecodeNLRIs(body[2:2+wl], wire.IPv4Unicast, o.AddPathIPv4); e != nil {
+		return nil, false, e
+	}
+	if u.NLRI, e = wire.DecodeNLRIs(body[4+wl+al:], wire.IPv4Unicast, o.AddPathIPv4); e != nil {
+		return nil, false, e
+	}
+	if u.PA, e = wire.ParseAttrs(attrs, o); e != nil {
+		return nil, false, e
+	}
+	return u, true, nil
+}
+
 // NewSender builds a hook sender for the session writing into a fresh capture.
 func NewSender(s Sess) (*server.UpdateSender, *Capture) {
 	c := &Capture{}
@@ -314,7 +360,7 @@ func (p *PathSpec) Bio() *route.Path {
 	}
 	b := &route.BGPPath{
 		BGPPathA: &route.BGPPathA{NextHop: ip(p.V6, p.NextHop), Source: bnet.IPv4(p.Source).Ptr(), LocalPref: p.LocalPref, MED: p.MED, OriginatorID: p.OrigID,
-			EBGP: p.EBGP, AtomicAggregate: p.Atomic, Origin: p.Origin},
+			EBGP: p.EBGP, AtomicAggregate: p.Atomic, Origin: p.Origin, OnlyToCustomer: p.OTC},
 		ASPath:         &asp,
 		PathIdentifier: p.PathID,
 	}
@@ -519,7 +565,14 @@ func Compare(p *PathSpec, e Expect, got *wire.PathAttrs) []Diff {
 			}
 		}
 	}
-	if got.AS4Path != nil || got.HasAS4Path || got.AS4Aggregator != nil || got.OTC != nil {
+	if p.OTC != 0 && (got.OTC == nil || *got.OTC != p.OTC) {
+		if got.OTC == nil {
+			add("only-to-customer", "ONLY_TO_CUSTOMER missing, handed %d", p.OTC)
+		} else {
+			add("only-to-customer", "ONLY_TO_CUSTOMER %d, handed %d", *got.OTC, p.OTC)
+		}
+	}
+	if got.AS4Path != nil || got.HasAS4Path || got.AS4Aggregator != nil || (got.OTC != nil && p.OTC == 0) {
 		add("extra-attribute", "attributes nobody handed in: as4path=%v as4aggr=%v otc=%v", got.HasAS4Path, got.AS4Aggregator != nil, got.OTC != nil)
 	}
 	return d
@@ -586,6 +639,12 @@ func FromBioAttrs(pa *packet.PathAttribute, as4 bool) (*wire.PathAttrs, error) {
 			for _, c := range *pa.Value.(*types.LargeCommunities) {
 				out.LargeCommunities = append(out.LargeCommunities, wire.LargeCommunity{Global: c.GlobalAdministrator, Local1: c.DataPart1, Local2: c.DataPart2})
 			}
+		case packet.OnlyToCustomerAttr:
+			v, ok := pa.Value.(uint32)
+			if !ok {
+				return nil, fmt.Errorf("attribute %d decoded to %T", pa.TypeCode, pa.Value)
+			}
+			out.OTC = wire.U32(v)
 		case packet.MultiProtocolReachNLRIAttr:
 			m := pa.Value.(packet.MultiProtocolReachNLRI)
 			r := &wire.MPReach{Family: wire.Family{AFI: m.AFI, SAFI: m.SAFI}, NLRI: nl(m.AFI, m.NLRI)}
@@ -772,6 +831,9 @@ func ReferenceAttrs(p *PathSpec, s Sess) *wire.PathAttrs {
 		if len(p.Cluster) > 0 {
 			a.ClusterList = p.Cluster
 		}
+	}
+	if p.OTC != 0 {
+		a.OTC = wire.U32(p.OTC)
 	}
 	for _, u := range p.Unknown {
 		v, _ := hex.DecodeString(u.Value)
